@@ -44,7 +44,9 @@ class ReadRec:
             note="a truth propagation job is built from the agent's own truth attributes only (time, step, state, dynamics, station keeping, queued propagation events, epoch), the worker calls nothing but dynamics.propagate on exactly those values, and the result is written back to that agent's time and state only - no filter, tasking, sensor or output-cadence datum can reach a truth trajectory")
 def truth_job(vc):
     sk = [_NS(reductions=None)]
-    reg_ag = ReadRec(station_keeping=sk, simulation_id=7, dynamics="DYN", time=100, dt_step=60, eci_state="X", propagate_event_queue=["EV"], datetime_epoch="NOW")
+    reg_ag = ReadRec(station_keeping=sk, simulation_id=7, dynamics="DYN", time=100, dt_step=60, eci_state="X", propagate_event_queue=["EV", "EV-already-fired"], datetime_epoch="NOW")
+    # pruning REBINDS the queue (Agent.prunePropagateEvents assigns a new list): the job must carry the queue as it is after pruning
+    reg_ag._attrs["prunePropagateEvents"] = lambda: reg_ag._attrs.__setitem__("propagate_event_queue", ["EV"])
     vc.install(AP + "@ReductionParams", _NS(build=lambda d: ("RED", d)))
     vc.install(AP + "@PropagateSubmission", lambda **kw: _NS(**kw))
     reg = vc.new(AP + "PropagateRegistration", _registrant=reg_ag)
